@@ -255,6 +255,7 @@ class Canon:
             self.result_temporaries(body)
             self.slice_aliases(body)
             self.fill_calls(body)
+            self.extend_map(body)
             self.for_each_loops(body)
             self.for_map_loops(body)
             self.slice_aliases(body)         # an alias that was captured by a `for_each` closure is a plain alias now
@@ -2425,6 +2426,28 @@ class Canon:
                         break
                 if again:
                     break
+
+    def extend_map(self, body):
+        """`X.extend(R.map(|p| E));` as a statement  ->  `for p in R { X.push(E); }`: extend pulls the items in order and pushes each."""
+        for blk in [n for n in _walk(body) if n.get("k") == "Block"]:
+            for st in blk.get("stmts", []):
+                e = _strip(st.get("e") or {}) if st.get("k") in ("Semi", "Expr") else {}
+                if e.get("k") != "MethodCall" or e.get("name") != "extend" or len(e.get("args", [])) != 1 or not str(e.get("fn", "")).startswith(("std::iter::Extend", "std::vec::Vec")):
+                    continue
+                it = _strip(e["args"][0])
+                if it.get("k") != "MethodCall" or it.get("name") != "map" or len(it.get("args", [])) != 1 or not str(it.get("fn", "")).startswith("std::iter::Iterator::map"):
+                    continue
+                cl = _strip(it["args"][0])
+                if cl.get("k") != "Closure" or len(cl.get("params", [])) != 1 or cl["params"][0].get("k") != "Bind" or cl["params"][0].get("byref") or \
+                        any(x.get("k") in ("Ret", "Try", "Break", "Continue") for x in _walk(cl["body"])) or not self._pure(_strip(e["recv"])):
+                    continue
+                sp = list(e.get("sp") or [0, 0, 0, 0])
+                push = {"k": "MethodCall", "name": "push", "fn": "std::vec::Vec<T, A>::push", "fn_local": False, "recv": e["recv"], "args": [cl["body"]], "id": self._id(), "ty": "()", "sp": list(sp)}
+                loop = {"k": "For", "pat": cl["params"][0], "iter": it["recv"], "body": {"k": "Block", "stmts": [{"k": "Semi", "e": push, "sp": list(sp)}], "expr": None, "id": self._id(), "ty": "()", "sp": list(sp)},
+                        "id": self._id(), "ty": "()", "sp": list(sp)}
+                st["e"] = loop
+                st["k"] = "Semi"
+                self.stats["extend_map"] = self.stats.get("extend_map", 0) + 1
 
     def for_map_loops(self, body):
         """`for p in X.map(|t| E) { body }`  ->  `for t in X { let p = E; body }` (also through `.into_iter()` of X): `map` is lazy, E is
